@@ -295,7 +295,7 @@ fn c07_errors(rep: &mut Report, r: &mut Rng, shard: u64, nshards: u64) {
                         }
                     }
                     // ... or re-targeted it (separate response: own type and message id), or touched other parts
-                    let premut = r.below(12);
+                    let premut = r.below(14);
                     if premut == 8 {
                         // the final block of an upload: request and reply carry the same Block1 value (the
                         // acknowledgement a block handler put on the reply) - any error may follow, 4.08 included
@@ -348,7 +348,20 @@ fn c07_errors(rep: &mut Report, r: &mut Rng, shard: u64, nshards: u64) {
                             _ => {}
                         }
                     }
-                    if premut >= 9 {
+                    if premut >= 12 {
+                        // the client asked for a size estimate (Size2 on the request) and the application had
+                        // already described its body: Size2 equal to the payload length (12) or the total of a
+                        // larger representation (13) - an error replaces code, payload and content format only
+                        rq.message.add_option(CoapOption::Size2, vec![]);
+                        if let Some(resp) = rq.response.as_mut() {
+                            let n = 1 + r.usize_below(300);
+                            resp.message.payload = vec![0x70; n];
+                            let total = if premut == 12 { n as u64 } else { n as u64 + 4096 };
+                            resp.message.add_option(CoapOption::Size2, crate::optval::min_be(total));
+                            resp.message.add_option(CoapOption::ETag, vec![7, 7]);
+                        }
+                    }
+                    if (9..=11).contains(&premut) {
                         // the reply already looks like an error reply of the same shape: an earlier error with the
                         // same code whose diagnostic has the same LENGTH but other bytes was applied (9), the
                         // application itself had put code + text/plain + an equally long body there (10), or only
